@@ -32,6 +32,9 @@ def _items():
                 'pub static mut SYM_%s_%s: %s = %s;\n'
                 'pub fn sym_%s_%s() -> %s { unsafe { SYM_%s_%s } }\n'
                 % (which.upper(), T, t, lit, which, t, t, which.upper(), T))
+        five = '5.0' if t in FLOAT_TYPES else '5'
+        add('five_%s' % t, 'pub const fn five_%s() -> %s { %s }\n' % (t, t, five),
+            'pub const fn five_%s() -> (r: %s) ensures r == %s { %s }\n' % (t, t, five, five))
         # constants
         lit = '10.0' if t in FLOAT_TYPES else '10'
         add('K_%s' % T, 'pub const K_%s: %s = %s;\n' % (T, t, lit), 'pub const K_%s: %s = %s;\n' % (T, t, lit))
